@@ -516,6 +516,25 @@ func c07Monitor(args []string) int {
 		"8/8/R7/7k/7p/5N1K/1q4P1/8 w - - 0 1", "8/1Q4p1/5n1k/7P/7K/r7/8/8 b - - 0 1", "4k3/8/8/8/4p3/8/3P4/4K2R w K - 0 1" /* a double step checks; the en-passant capture of the checking pawn is a legal reply */} {
 		p, _ := position.NewPositionFen(fen)
 		positions = append(positions, GamePos{Root: fen, P: p})
+		// a root without legal moves is classified by check alone - also when the fifty-move clock has run out
+		// (mate on the 100th reversible half move is mate)
+		if p != nil && len(w.legalMoves(p)) == 0 {
+			for _, clk := range []string{"99", "100", "120"} {
+				f := strings.Fields(fen)
+				f[4] = clk
+				cf := strings.Join(f, " ")
+				if cp, _ := position.NewPositionFen(cf); cp != nil {
+					positions = append(positions, GamePos{Root: cf, P: cp})
+				}
+			}
+		}
+	}
+	for k := 0; k < 3; k++ { // a double step that gives check and can be taken en passant is one move away
+		if fen := w.epCheckSkeleton(); fen != "" {
+			if p, _ := position.NewPositionFen(fen); p != nil {
+				positions = append(positions, GamePos{Root: fen, P: p})
+			}
+		}
 	}
 	// checks against a king with castling rights: default configuration, depth 3-5
 	castleFrom := len(positions)
